@@ -1,1 +1,470 @@
+//! KI5a/KI5b — zlib and gzip header modes, header capture within announced capacities (C02, C03, C08, C13, C20).
 use super::*;
+
+fn head_ref<'a>(h: &mut gz_header) -> Option<&'a mut gz_header> {
+    Some(unsafe { &mut *(h as *mut gz_header) })
+}
+
+/// gzip fixed part: Flags -> Time -> Os -> ExLen (-> ... -> Type when no optional field is announced)
+#[kani::proof]
+#[kani::unwind(14)]
+#[kani::stub(crate::inflate::inftrees::inflate_table, stub_table_unreachable)]
+#[kani::stub(core::fmt::write, stub_fmt_write)]
+#[kani::stub(core::panicking::panic_nounwind, stub_pn)]
+#[kani::stub(core::panicking::panic_nounwind_fmt, stub_pnf)]
+#[kani::stub(crate::crc32::crc32, stub_crc_model)]
+#[kani::stub(crate::inflate::State::len_and_friends, stub_laf_suspends)]
+#[kani::stub(crate::inflate::writer::Writer::copy_match, stub_copy_match_unreachable)]
+#[kani::stub(crate::inflate::writer::Writer::extend_from_window, stub_efw_unreachable)]
+#[kani::stub(<[u16]>::fill, stub_fill_unreachable)]
+fn ki5b_fixed_part() {
+    const NI: usize = 10;
+    let input: [u8; NI] = kani::any();
+    let n_in: usize = kani::any();
+    kani::assume(n_in <= NI);
+    let mut head = gz_header::default();
+    let with_head: bool = kani::any();
+    head.done = 0;
+    let mut out = [0u8; 4];
+    let mut win = [0u8; 8 + 64];
+    let wrap: u8 = kani::any();
+    kani::assume(wrap == 2 || wrap == 6);
+    let mut state = typed_state(&mut win, wrap, Mode::Flags);
+    if with_head {
+        state.head = head_ref(&mut head);
+    }
+    let ck0: u32 = kani::any();
+    state.checksum = ck0;
+    state.flush = InflateFlush::Block; // suspend at Type
+    unsafe { state.bit_reader.update_slice(input.as_ptr(), n_in) };
+    state.in_available = n_in;
+    state.writer = unsafe { Writer::new_uninit(out.as_mut_ptr(), 4) };
+    let rc = state.dispatch();
+    let used = consumed(&state, input.as_ptr());
+    assert!(used <= n_in);
+    assert!(state.writer.len() == 0);
+    let flg = input[1];
+    let bad_method = input[0] != 8;
+    let bad_flags = flg & 0xe0 != 0;
+    let mode = state.mode;
+    let ck_after = state.checksum;
+    let bits_left = state.bit_reader.bits_in_buffer() as usize;
+    core::mem::forget(state);
+    // header CRC: exactly the header bytes of completed fields, in order, are folded in (when requested and checking is on);
+    // bytes of a partially read fixed field are still in the bit register
+    if matches!(mode, Mode::Flags | Mode::Time | Mode::Os | Mode::ExLen | Mode::Extra | Mode::Name | Mode::Comment | Mode::HCrc) {
+        let folded = used - bits_left / 8;
+        if n_in >= 2 && flg & 2 != 0 && wrap & 4 != 0 {
+            assert!(ck_after == model_fold(ck0, &input[..folded]));
+        } else {
+            assert!(ck_after == ck0);
+        }
+    }
+    if n_in < 2 {
+        assert!(rc == ReturnCode::Ok && matches!(mode, Mode::Flags) && used == n_in);
+    } else if bad_method || bad_flags {
+        assert!(rc == ReturnCode::DataError && matches!(mode, Mode::Bad));
+    } else {
+        // the only other rejection in the header is the header-CRC verdict (CRC value nondeterministic here)
+        if rc != ReturnCode::Ok {
+            assert!(rc == ReturnCode::DataError && matches!(mode, Mode::Bad));
+            assert!(flg & 2 != 0 && wrap & 4 != 0 && n_in >= 10);
+        }
+        if with_head {
+            assert!(head.text == (flg & 1) as i32);
+            if n_in >= 6 {
+                assert!(head.time as u32 == u32::from_le_bytes([input[2], input[3], input[4], input[5]]));
+            }
+            if n_in >= 8 {
+                assert!(head.xflags == input[6] as i32 && head.os == input[7] as i32);
+            }
+            if flg & 4 != 0 && n_in >= 10 {
+                assert!(head.extra_len == u16::from_le_bytes([input[8], input[9]]) as u32);
+            }
+            // completion is signalled only once the whole header was parsed
+            assert!((head.done == 1) == matches!(mode, Mode::Type));
+            if head.done == 1 {
+                assert!(head.hcrc == ((flg >> 1) & 1) as i32);
+                // fields absent from the stream are reported absent
+                assert!(flg & 4 != 0 || head.extra.is_null());
+                assert!(flg & 8 != 0 || head.name.is_null());
+                assert!(flg & 16 != 0 || head.comment.is_null());
+            }
+        }
+        if matches!(mode, Mode::Type) {
+            assert!(n_in >= 8 && used >= 8);
+            assert!(flg & 0x1e != 0 || used == 8);
+        }
+    }
+    kani::cover!(with_head && head.done == 1);
+    kani::cover!(rc == ReturnCode::DataError && !bad_method);
+    kani::cover!(flg & 4 != 0 && n_in == 10 && rc == ReturnCode::Ok);
+}
+
+/// Extra field: copied only up to extra_max, at the right offsets, across calls (symbolic progress `length`)
+#[kani::proof]
+#[kani::unwind(14)]
+#[kani::stub(crate::inflate::inftrees::inflate_table, stub_table_unreachable)]
+#[kani::stub(core::fmt::write, stub_fmt_write)]
+#[kani::stub(core::panicking::panic_nounwind, stub_pn)]
+#[kani::stub(core::panicking::panic_nounwind_fmt, stub_pnf)]
+#[kani::stub(crate::crc32::crc32, stub_crc_nondet)]
+#[kani::stub(crate::inflate::State::len_and_friends, stub_laf_suspends)]
+#[kani::stub(crate::inflate::writer::Writer::copy_match, stub_copy_match_unreachable)]
+#[kani::stub(crate::inflate::writer::Writer::extend_from_window, stub_efw_unreachable)]
+#[kani::stub(<[u16]>::fill, stub_fill_unreachable)]
+fn ki5b_extra() {
+    const NI: usize = 6;
+    let input: [u8; NI] = kani::any();
+    let n_in: usize = kani::any();
+    kani::assume(n_in <= NI);
+    let init: [u8; 8] = kani::any();
+    let mut extra = init; // capacity 6 announced at most 4, bytes 6..8 are canaries too
+    let extra_max: u32 = kani::any();
+    kani::assume(extra_max <= 4);
+    let null_extra: bool = kani::any();
+    let mut head = gz_header::default();
+    head.extra = if null_extra { core::ptr::null_mut() } else { extra.as_mut_ptr() };
+    head.extra_max = extra_max;
+    let total_len: usize = kani::any(); // XLEN of the stream
+    let remaining: usize = kani::any(); // still to be read
+    kani::assume(total_len <= 9 && remaining <= total_len && remaining >= 1);
+    head.extra_len = total_len as u32;
+    let mut out = [0u8; 4];
+    let mut win = [0u8; 8 + 64];
+    let mut state = typed_state(&mut win, 6, Mode::Extra);
+    state.gzip_flags = 0x0408; // FEXTRA only
+    state.length = remaining;
+    state.head = head_ref(&mut head);
+    state.flush = InflateFlush::Block;
+    unsafe { state.bit_reader.update_slice(input.as_ptr(), n_in) };
+    state.in_available = n_in;
+    state.writer = unsafe { Writer::new_uninit(out.as_mut_ptr(), 4) };
+    let rc = state.dispatch();
+    let used = consumed(&state, input.as_ptr());
+    let take = if remaining < n_in { remaining } else { n_in };
+    assert!(rc == ReturnCode::Ok);
+    assert!(used == take);
+    let mode = state.mode;
+    let len_after = state.length;
+    core::mem::forget(state);
+    if take < remaining {
+        assert!(matches!(mode, Mode::Extra) && len_after == remaining - take);
+        assert!(head.done == 0);
+    } else {
+        assert!(matches!(mode, Mode::Type) && head.done == 1);
+    }
+    let written_before = total_len - remaining;
+    let mut i = 0;
+    while i < 8 {
+        let in_field = i >= written_before && i < written_before + take && (i as u32) < extra_max && !null_extra;
+        if in_field {
+            assert!(extra[i] == input[i - written_before]);
+        } else {
+            assert!(extra[i] == init[i]);
+        }
+        i += 1;
+    }
+    kani::cover!(!null_extra && extra_max == 4 && written_before == 2 && take == 5, "field longer than capacity, second call");
+    kani::cover!(null_extra && matches!(mode, Mode::Type));
+}
+
+fn string_field(mode_sel: bool) {
+    // mode_sel: false = Name, true = Comment
+    const NI: usize = 6;
+    let input: [u8; NI] = kani::any();
+    let n_in: usize = kani::any();
+    kani::assume(n_in <= NI);
+    let init: [u8; 8] = kani::any();
+    let mut buf = init;
+    let max: u32 = kani::any();
+    kani::assume(max <= 4);
+    let null_buf: bool = kani::any();
+    let mut head = gz_header::default();
+    let p = if null_buf { core::ptr::null_mut() } else { buf.as_mut_ptr() };
+    if mode_sel {
+        head.comment = p;
+        head.comm_max = max;
+    } else {
+        head.name = p;
+        head.name_max = max;
+    }
+    let mut out = [0u8; 4];
+    let mut win = [0u8; 8 + 64];
+    let mut state = typed_state(&mut win, 6, if mode_sel { Mode::Comment } else { Mode::Name });
+    state.gzip_flags = if mode_sel { 0x1008 } else { 0x0808 };
+    let already: usize = kani::any(); // bytes stored by earlier calls (invariant: <= max)
+    kani::assume(already <= max as usize);
+    state.length = if null_buf { 0 } else { already };
+    let hcrc: bool = kani::any();
+    if hcrc {
+        state.gzip_flags |= 0x0200;
+    }
+    let ck0: u32 = kani::any();
+    state.checksum = ck0;
+    state.head = head_ref(&mut head);
+    state.flush = InflateFlush::Block;
+    unsafe { state.bit_reader.update_slice(input.as_ptr(), n_in) };
+    state.in_available = n_in;
+    state.writer = unsafe { Writer::new_uninit(out.as_mut_ptr(), 4) };
+    let rc = state.dispatch();
+    let used = consumed(&state, input.as_ptr());
+    // position of the terminator in the supplied bytes
+    let mut z = n_in;
+    let mut i = NI;
+    while i > 0 {
+        i -= 1;
+        if i < n_in && input[i] == 0 {
+            z = i;
+        }
+    }
+    let field_bytes = if z < n_in { z + 1 } else { n_in };
+    let mode = state.mode;
+    let len_after = state.length;
+    let ck_after = state.checksum;
+    core::mem::forget(state);
+    if matches!(mode, Mode::Name | Mode::Comment | Mode::HCrc) {
+        // every byte of the field (terminator included) is folded into the header CRC, nothing else
+        assert!(ck_after == if hcrc { model_fold(ck0, &input[..field_bytes]) } else { ck0 });
+    }
+    if hcrc && z < n_in {
+        // the header CRC follows: verdict against the (model) checksum, or waiting for its two bytes
+        if n_in - field_bytes < 2 {
+            assert!(rc == ReturnCode::Ok && matches!(mode, Mode::HCrc) && used == n_in && head.done == 0);
+        } else {
+            let given = u16::from_le_bytes([input[field_bytes], input[field_bytes + 1]]) as u32;
+            if given == model_fold(ck0, &input[..field_bytes]) & 0xffff {
+                assert!(rc == ReturnCode::Ok && matches!(mode, Mode::Type) && head.done == 1 && used == field_bytes + 2);
+            } else {
+                assert!(rc == ReturnCode::DataError && matches!(mode, Mode::Bad) && head.done == 0);
+            }
+        }
+    } else {
+    assert!(rc == ReturnCode::Ok);
+    assert!(used == field_bytes);
+    if z < n_in {
+        assert!(matches!(mode, Mode::Type) && head.done == 1);
+    } else {
+        assert!(head.done == 0);
+        assert!(if mode_sel { matches!(mode, Mode::Comment) } else { matches!(mode, Mode::Name) });
+        assert!(null_buf || len_after <= max as usize);
+    }
+    }
+    let room = max as usize - already;
+    let stored = if field_bytes < room { field_bytes } else { room };
+    let mut i = 0;
+    while i < 8 {
+        if !null_buf && i >= already && i < already + stored {
+            assert!(buf[i] == input[i - already]);
+        } else {
+            assert!(buf[i] == init[i]);
+        }
+        i += 1;
+    }
+    kani::cover!(!null_buf && z == 2 && already == 1 && max == 4);
+    kani::cover!(!null_buf && z == n_in && n_in == 6 && max == 2, "string longer than capacity, unterminated so far");
+    kani::cover!(null_buf && z < n_in);
+}
+
+#[kani::proof]
+#[kani::unwind(14)]
+#[kani::stub(crate::inflate::inftrees::inflate_table, stub_table_unreachable)]
+#[kani::stub(core::fmt::write, stub_fmt_write)]
+#[kani::stub(core::panicking::panic_nounwind, stub_pn)]
+#[kani::stub(core::panicking::panic_nounwind_fmt, stub_pnf)]
+#[kani::stub(crate::crc32::crc32, stub_crc_model)]
+#[kani::stub(crate::inflate::State::len_and_friends, stub_laf_suspends)]
+#[kani::stub(crate::inflate::writer::Writer::copy_match, stub_copy_match_unreachable)]
+#[kani::stub(crate::inflate::writer::Writer::extend_from_window, stub_efw_unreachable)]
+#[kani::stub(<[u16]>::fill, stub_fill_unreachable)]
+fn ki5b_name() {
+    string_field(false);
+}
+
+#[kani::proof]
+#[kani::unwind(14)]
+#[kani::stub(crate::inflate::inftrees::inflate_table, stub_table_unreachable)]
+#[kani::stub(core::fmt::write, stub_fmt_write)]
+#[kani::stub(core::panicking::panic_nounwind, stub_pn)]
+#[kani::stub(core::panicking::panic_nounwind_fmt, stub_pnf)]
+#[kani::stub(crate::crc32::crc32, stub_crc_model)]
+#[kani::stub(crate::inflate::State::len_and_friends, stub_laf_suspends)]
+#[kani::stub(crate::inflate::writer::Writer::copy_match, stub_copy_match_unreachable)]
+#[kani::stub(crate::inflate::writer::Writer::extend_from_window, stub_efw_unreachable)]
+#[kani::stub(<[u16]>::fill, stub_fill_unreachable)]
+fn ki5b_comment() {
+    string_field(true);
+}
+
+/// header CRC verdict: accepted iff the stored CRC16 equals the low 16 bits of the running header CRC
+#[kani::proof]
+#[kani::unwind(10)]
+#[kani::stub(crate::inflate::inftrees::inflate_table, stub_table_unreachable)]
+#[kani::stub(core::fmt::write, stub_fmt_write)]
+#[kani::stub(core::panicking::panic_nounwind, stub_pn)]
+#[kani::stub(core::panicking::panic_nounwind_fmt, stub_pnf)]
+#[kani::stub(crate::inflate::State::len_and_friends, stub_laf_suspends)]
+#[kani::stub(crate::inflate::writer::Writer::copy_match, stub_copy_match_unreachable)]
+#[kani::stub(crate::inflate::writer::Writer::extend_from_window, stub_efw_unreachable)]
+#[kani::stub(<[u16]>::fill, stub_fill_unreachable)]
+fn ki5b_hcrc() {
+    let input: [u8; 3] = kani::any();
+    let n_in: usize = kani::any();
+    kani::assume(n_in <= 3);
+    let mut head = gz_header::default();
+    let mut out = [0u8; 4];
+    let mut win = [0u8; 8 + 64];
+    let wrap: u8 = kani::any();
+    kani::assume(wrap == 2 || wrap == 6);
+    let mut state = typed_state(&mut win, wrap, Mode::HCrc);
+    let fhcrc: bool = kani::any();
+    state.gzip_flags = if fhcrc { 0x0208 } else { 0x0008 };
+    let ck: u32 = kani::any();
+    state.checksum = ck;
+    state.head = head_ref(&mut head);
+    state.flush = InflateFlush::Block;
+    unsafe { state.bit_reader.update_slice(input.as_ptr(), n_in) };
+    state.in_available = n_in;
+    state.writer = unsafe { Writer::new_uninit(out.as_mut_ptr(), 4) };
+    let rc = state.dispatch();
+    let used = consumed(&state, input.as_ptr());
+    let mode = state.mode;
+    let ck_after = state.checksum;
+    core::mem::forget(state);
+    let given = u16::from_le_bytes([input[0], input[1]]) as u32;
+    if !fhcrc {
+        assert!(rc == ReturnCode::Ok && used == 0 && matches!(mode, Mode::Type) && head.done == 1 && head.hcrc == 0);
+    } else if n_in < 2 {
+        assert!(rc == ReturnCode::Ok && used == n_in && matches!(mode, Mode::HCrc) && head.done == 0);
+    } else if wrap & 4 != 0 && given != (ck & 0xffff) {
+        assert!(rc == ReturnCode::DataError && matches!(mode, Mode::Bad) && head.done == 0);
+    } else {
+        assert!(rc == ReturnCode::Ok && used == 2 && matches!(mode, Mode::Type) && head.done == 1 && head.hcrc == 1);
+    }
+    // the data CRC starts from the initial value once the header is done
+    if matches!(mode, Mode::Type) && wrap & 4 != 0 {
+        assert!(ck_after == 0);
+    }
+    kani::cover!(rc == ReturnCode::DataError);
+    kani::cover!(fhcrc && matches!(mode, Mode::Type) && wrap == 6);
+}
+
+/// zlib header (RFC 1950): accepted iff CM = 8, CINFO <= 7 and within the configured window, (CMF*256+FLG) % 31 == 0;
+/// FDICT leads to DictId/Dict and NeedDict with the big-endian id; gzip magic only when gzip decoding is enabled.
+#[kani::proof]
+#[kani::unwind(6)]
+#[kani::stub(crate::inflate::inftrees::inflate_table, stub_table_unreachable)]
+#[kani::stub(core::fmt::write, stub_fmt_write)]
+#[kani::stub(core::panicking::panic_nounwind, stub_pn)]
+#[kani::stub(core::panicking::panic_nounwind_fmt, stub_pnf)]
+#[kani::stub(crate::crc32::crc32, stub_crc_nondet)]
+#[kani::stub(crate::inflate::State::len_and_friends, stub_laf_suspends)]
+#[kani::stub(crate::inflate::writer::Writer::copy_match, stub_copy_match_unreachable)]
+#[kani::stub(crate::inflate::writer::Writer::extend_from_window, stub_efw_unreachable)]
+#[kani::stub(<[u16]>::fill, stub_fill_unreachable)]
+fn ki5a_head() {
+    let input: [u8; 6] = kani::any();
+    let n_in: usize = kani::any();
+    kani::assume(n_in <= 6);
+    let mut out = [0u8; 4];
+    let mut win = [0u8; 8 + 64];
+    let wrap: u8 = kani::any();
+    kani::assume(wrap >= 1 && wrap <= 7 && wrap != 4);
+    let mut state = typed_state(&mut win, wrap, Mode::Head);
+    let wbits: u8 = kani::any();
+    kani::assume(wbits == 0 || (wbits >= 8 && wbits <= 15));
+    state.wbits = wbits;
+    state.flush = InflateFlush::Block;
+    unsafe { state.bit_reader.update_slice(input.as_ptr(), n_in) };
+    state.in_available = n_in;
+    state.writer = unsafe { Writer::new_uninit(out.as_mut_ptr(), 4) };
+    let rc = state.dispatch();
+    let used = consumed(&state, input.as_ptr());
+    assert!(used <= n_in && state.writer.len() == 0);
+    let cmf = input[0];
+    let flg = input[1];
+    let is_gzip_magic = cmf == 0x1f && flg == 0x8b;
+    let mode = state.mode;
+    if n_in < 2 {
+        assert!(rc == ReturnCode::Ok && matches!(mode, Mode::Head));
+    } else if wrap & 2 != 0 && is_gzip_magic {
+        assert!(!matches!(mode, Mode::Bad | Mode::Head | Mode::Type | Mode::DictId | Mode::Dict));
+        assert!(state.wbits == if wbits == 0 { 15 } else { wbits });
+    } else {
+        let cinfo = cmf >> 4;
+        let want = if wbits == 0 { cinfo + 8 } else { wbits };
+        let valid = wrap & 1 != 0
+            && ((cmf as u32) * 256 + flg as u32) % 31 == 0
+            && cmf & 0x0f == 8
+            && cinfo <= 7
+            && cinfo + 8 <= want;
+        if !valid {
+            assert!(rc == ReturnCode::DataError && matches!(mode, Mode::Bad));
+        } else if flg & 0x20 == 0 {
+            assert!(rc == ReturnCode::Ok && matches!(mode, Mode::Type) && used == 2);
+            assert!(state.dmax == 1usize << (cinfo + 8) && state.checksum == 1 && state.gzip_flags == 0);
+        } else if n_in < 6 {
+            assert!(rc == ReturnCode::Ok && matches!(mode, Mode::DictId) && used == n_in);
+        } else {
+            // dictionary demanded, identifier reported (big endian)
+            assert!(rc == ReturnCode::NeedDict && matches!(mode, Mode::Dict) && used == 6);
+            assert!(state.checksum == u32::from_be_bytes([input[2], input[3], input[4], input[5]]));
+        }
+    }
+    kani::cover!(rc == ReturnCode::NeedDict);
+    kani::cover!(matches!(mode, Mode::Type) && wbits == 0);
+    kani::cover!(rc == ReturnCode::DataError && ((cmf as u32) * 256 + flg as u32) % 31 == 0 && cmf & 0x0f == 8, "window size rejection");
+    core::mem::forget(state);
+}
+
+/// inflate::set_dictionary: state check, Adler-32 identifier check, window load, HAVE_DICT; then Dict -> Type.
+#[kani::proof]
+#[kani::unwind(12)]
+#[kani::stub(crate::inflate::inftrees::inflate_table, stub_table_unreachable)]
+#[kani::stub(core::fmt::write, stub_fmt_write)]
+#[kani::stub(core::panicking::panic_nounwind, stub_pn)]
+#[kani::stub(core::panicking::panic_nounwind_fmt, stub_pnf)]
+fn ki5a_set_dictionary() {
+    const W: usize = 4;
+    let dict: [u8; 6] = kani::any();
+    let dl: usize = kani::any();
+    kani::assume(dl <= 6);
+    let mut win = [0u8; W + 64];
+    let wrap: u8 = kani::any();
+    kani::assume(wrap == 0 || wrap == 1 || wrap == 5);
+    let in_dict_mode: bool = kani::any();
+    let mut state = typed_state(&mut win, wrap, if in_dict_mode { Mode::Dict } else { Mode::Type });
+    state.gzip_flags = 0;
+    let id: u32 = kani::any();
+    state.checksum = id;
+    let mut stream = typed_stream(unsafe { &mut *(&mut state as *mut State) });
+    let rc = set_dictionary(&mut stream, &dict[..dl]);
+    let expect_id = ref_adler32(1, &dict[..dl]);
+    if wrap != 0 && !in_dict_mode {
+        assert!(rc == ReturnCode::StreamError);
+        assert!(stream.state.window.have() == 0);
+    } else if in_dict_mode && id != expect_id {
+        assert!(rc == ReturnCode::DataError);
+        assert!(stream.state.window.have() == 0 && !stream.state.flags.contains(Flags::HAVE_DICT));
+    } else {
+        assert!(rc == ReturnCode::Ok);
+        assert!(stream.state.flags.contains(Flags::HAVE_DICT));
+        let have = if dl < W { dl } else { W };
+        assert!(stream.state.window.have() == have);
+        // retrievable history = tail of the dictionary
+        let mut o = [0u8; W];
+        let n = unsafe { get_dictionary(&stream, o.as_mut_ptr()) };
+        assert!(n == have);
+        let mut i = 0;
+        while i < W {
+            if i < have {
+                assert!(o[i] == dict[dl - have + i]);
+            }
+            i += 1;
+        }
+    }
+    kani::cover!(rc == ReturnCode::Ok && in_dict_mode && dl == 6);
+    kani::cover!(rc == ReturnCode::DataError);
+    core::mem::forget(stream);
+    core::mem::forget(state);
+}
